@@ -1,6 +1,7 @@
 package main
 
 import (
+	"encoding/json"
 	"flag"
 	"fmt"
 	"math/rand"
@@ -225,9 +226,151 @@ func ctreeContend(w *trace.Writer, seed int64, dur time.Duration) bool {
 	return false
 }
 
+// ctreeDuel is a tiny history: a few sequential adds, then two or three goroutines released together by a spin
+// barrier, each issuing one operation (sometimes a second one) on the same handful of short paths - the empty path
+// (the root as a leaf) and positions where a leaf and a branch compete included. Hundreds of thousands of these put
+// conflicting operations truly side by side, which the longer random histories do only by chance. The invocation of
+// each goroutine's first operation is logged before the barrier (a wider interval only admits more orders), so
+// nothing stands between the barrier and the call. Identical duels are written once (the caller de-duplicates).
+func ctreeDuel(seed int64) (evs []trace.E, hung bool) {
+	var mu sync.Mutex
+	emit := func(e trace.E) { mu.Lock(); evs = append(evs, e); mu.Unlock() }
+	r := rand.New(rand.NewSource(seed))
+	t := &ctree.Tree{}
+	emit(trace.E{"ev": "reset"})
+	pathSets := [][][]string{
+		{{}, {"a"}, {"b"}},
+		{{}, {"a"}, {"a", "b"}},
+		{{"a"}, {"a", "b"}, {"a", "c"}},
+		{{"a", "b"}, {"a", "b", "c"}, {"a", "c"}},
+	}
+	paths := pathSets[r.Intn(len(pathSets))]
+	values := []string{"v1", "v2", "v3"}
+	type op struct {
+		kind string
+		p    []string
+		v    string
+	}
+	inv := func(g string, o op) {
+		switch o.kind {
+		case "Add":
+			emit(trace.E{"ev": "inv", "g": g, "op": "Add", "p": trace.Strs(o.p), "v": o.v})
+		case "Delete":
+			emit(trace.E{"ev": "inv", "g": g, "op": "Delete", "q": trace.Strs(o.p)})
+		case "UpdateLeaf":
+			emit(trace.E{"ev": "inv", "g": g, "op": "UpdateLeaf", "p": trace.Strs(o.p), "v": o.v})
+		case "Get":
+			emit(trace.E{"ev": "inv", "g": g, "op": "Get", "p": trace.Strs(o.p)})
+		}
+	}
+	run := func(g string, o op) {
+		switch o.kind {
+		case "Add":
+			res := "ok"
+			if err := t.Add(o.p, o.v); err != nil {
+				res = "err"
+			}
+			emit(trace.E{"ev": "ret", "g": g, "op": "Add", "res": res})
+		case "Delete":
+			dp := [][]string{}
+			for _, x := range t.Delete(o.p) {
+				dp = append(dp, trace.Strs(x))
+			}
+			emit(trace.E{"ev": "ret", "g": g, "op": "Delete", "paths": dp})
+		case "UpdateLeaf":
+			res := "none"
+			if lf := t.GetLeaf(o.p); lf != nil {
+				if _, isStr := lf.Value().(string); isStr {
+					lf.Update(o.v)
+					res = "ok"
+				}
+			}
+			emit(trace.E{"ev": "ret", "g": g, "op": "UpdateLeaf", "res": res})
+		case "Get":
+			n := t.Get(o.p)
+			kind, val := "none", "-"
+			if n != nil {
+				if n.IsBranch() {
+					kind = "branch"
+				} else if v := n.Value(); v != nil {
+					kind, val = "leaf", valStr(v)
+				}
+			}
+			emit(trace.E{"ev": "ret", "g": g, "op": "Get", "kind": kind, "val": val})
+		}
+	}
+	if r.Intn(2) == 0 { // half of the duels start from an empty tree (the root is neither leaf nor branch)
+		for k, n := 0, 1+r.Intn(2); k < n; k++ {
+			o := op{"Add", paths[r.Intn(len(paths))], values[r.Intn(len(values))]}
+			inv("init", o)
+			run("init", o)
+		}
+	}
+	ng := 2 + r.Intn(3)/2
+	plans := make([][]op, ng)
+	for g := range plans {
+		for k, n := 0, 1+r.Intn(3)/2; k < n; k++ {
+			o := op{kind: "Add", p: paths[r.Intn(len(paths))], v: values[r.Intn(len(values))]}
+			switch x := r.Intn(10); {
+			case x < 6:
+			case x < 8:
+				o.kind = "Delete"
+			case x < 9:
+				o.kind = "UpdateLeaf"
+			default:
+				o.kind = "Get"
+			}
+			plans[g] = append(plans[g], o)
+		}
+	}
+	if r.Intn(2) == 0 {
+		// a leaf and a branch competing for one position: Add(p) beside Add(p/x)
+		p := paths[0]
+		plans[0][0] = op{"Add", p, values[r.Intn(len(values))]}
+		plans[1][0] = op{"Add", append(append([]string{}, p...), "x"), values[r.Intn(len(values))]}
+	}
+	for g := range plans {
+		inv(fmt.Sprintf("g%d", g), plans[g][0])
+	}
+	var ready int32
+	var wg sync.WaitGroup
+	done := make(chan struct{})
+	for g := 0; g < ng; g++ {
+		wg.Add(1)
+		go func(g int) {
+			defer wg.Done()
+			name := fmt.Sprintf("g%d", g)
+			atomic.AddInt32(&ready, 1)
+			for atomic.LoadInt32(&ready) < int32(ng) { // spin: all start together
+			}
+			for k, o := range plans[g] {
+				if k > 0 {
+					inv(name, o)
+				}
+				run(name, o)
+			}
+		}(g)
+	}
+	go func() { wg.Wait(); close(done) }()
+	select {
+	case <-done:
+	case <-time.After(10 * time.Second):
+		emit(trace.E{"ev": "hang", "what": "an operation did not return within 10 s (deadlock?)"})
+		return evs, true
+	}
+	proj := []pv{}
+	t.Walk(func(p []string, _ *ctree.Leaf, v interface{}) error {
+		proj = append(proj, pv{trace.Strs(p), valStr(v)})
+		return nil
+	})
+	emit(trace.E{"ev": "final", "proj": proj})
+	return evs, false
+}
+
 func ctreeConc(args []string) error {
 	fs := flag.NewFlagSet("ctree conc", flag.ContinueOnError)
 	contend := fs.Int("contend", 0, "contention rounds (150 ms each) after the histories")
+	duels := fs.Int("duels", 0, "duels (tiny histories with a common start) after the histories")
 	n := fs.Int("n", 300, "histories")
 	out := fs.String("out", "", "output directory")
 	shards := fs.Int("shards", 16, "trace files")
@@ -256,12 +399,31 @@ func ctreeConc(args []string) error {
 	}
 	wg.Wait()
 	atomic.StoreInt32(&ctreeDelay, 0)
+	// duels one at a time, 4 spinning goroutines at most: they need real parallelism, not the other shards' load
+	seen := map[string]bool{}
+	distinct := 0
+	for i := 0; i < *duels && hangs == 0; i++ {
+		// 96 plans per run, each repeated: what varies between the repetitions is the interleaving
+		evs, hung := ctreeDuel(seed*15485863 + int64(i%96))
+		if hung {
+			hangs++
+		}
+		b, _ := json.Marshal(evs)
+		if k := string(b); !seen[k] {
+			seen[k] = true
+			w := ss.ws[distinct%len(ss.ws)]
+			distinct++
+			for _, e := range evs {
+				w.Emit(e)
+			}
+		}
+	}
 	for i := 0; i < *contend && hangs == 0; i++ {
 		if ctreeContend(ss.ws[i%len(ss.ws)], seed*31+int64(i), 150*time.Millisecond) {
 			hangs++
 		}
 	}
 	ev := ss.close()
-	fmt.Printf("DRV ctree conc histories=%d contention_rounds=%d events=%d hangs=%d\n", *n, *contend, ev, hangs)
+	fmt.Printf("DRV ctree conc histories=%d duels=%d distinct_duels=%d contention_rounds=%d events=%d hangs=%d\n", *n+distinct, *duels, distinct, *contend, ev, hangs)
 	return nil
 }
